@@ -413,6 +413,34 @@ def cost(repo, rep, rule):
                   'normalising flat_choice documents nested 1/2/3/4 deep (both alternatives share the inner document) takes %s normalisation '
                   'calls: the work grows faster than linearly with the depth - both alternatives are normalised although the layout uses one' % counts,
                   nontrivial=True)
+    # building: wrapping an existing document into one more level (annotate / group / flat_choice with the same child in both
+    # alternatives - what the printers do for a commented element) costs the same number of calls at every level: a combinator that
+    # walks the document it is given (deep validation, eager normalisation) visits the shared child twice per level
+    for shape in ('annotated-choice', 'nested-groups'):
+        per_level = []
+        try:
+            x = w.build(a)
+            for d in range(1, 8):
+                w.it.call_counts = {}
+                if shape == 'annotated-choice':
+                    br = w.call(w.dm, 'concat', [ListV([x, w.HL])])
+                    fl = w.call(w.dm, 'concat', [ListV([x])])
+                    fc = w.call(w.dm, 'flat_choice', [], {'when_broken': br, 'when_flat': fl})
+                    x = w.call(w.dm, 'annotate', [Const('<label>'), w.call(w.dm, 'group', [fc])])
+                else:
+                    x = w.call(w.dm, 'group', [w.call(w.dm, 'nest', [Const(2), w.call(w.dm, 'concat', [ListV([x, w.LINE, x])])])])
+                per_level.append(sum(w.it.call_counts.values()))
+            w.it.call_counts = None
+        except (Undecided, PathLimit, Raised) as e:
+            n += 1
+            rep.undecided(rule, 'construction-cost[%s]' % shape, where, str(e))
+            continue
+        n += 1
+        rep.check(max(per_level[2:]) <= per_level[1] + 2, rule, 'construction-cost-constant-per-level[%s]' % shape, where,
+                  'calls for wrapping one more level, levels 1..7: %s' % per_level,
+                  'wrapping a document into one more annotate / group / flat_choice level takes %s interpreted calls at levels 1..7: a combinator '
+                  'walks the whole document it is given, and a child that sits in both alternatives is walked twice per level - the work doubles with '
+                  'every nesting level of commented values' % per_level, nontrivial=True)
     return n
 
 
